@@ -247,6 +247,22 @@ fn bb_replays(ctx: &Ctx, report: &mut Report) -> u64 {
                 Err(e) => report.infra_errors.push(e),
             }
         }
+        if r["engine"] == "BB-c17wide" {
+            match super::bb_c03w::replay_antichain(r) {
+                Ok(res) => {
+                    n += 1;
+                    if let Some(msg) = res.violation {
+                        println!("  replay {} still fails: {}", path.display(), msg);
+                        report.fail(Failure {
+                            message: msg,
+                            signature: res.signature.unwrap_or_default(),
+                            replay: res.replay,
+                        });
+                    }
+                }
+                Err(e) => report.infra_errors.push(e),
+            }
+        }
         if r["engine"] == "BB-wide" {
             match super::bb_c03w::replay_wide(r) {
                 Ok(res) => {
@@ -617,6 +633,21 @@ fn c17(ctx: &Ctx) -> i32 {
             stream: 317,
         };
         let (part, failures) = run_prop(&pr, hub_case, eval_hub);
+        report.add(part);
+        for f in failures {
+            report.fail(f);
+        }
+        let max = ctx.tier.pick(40, 120);
+        let pr = PropRun {
+            ctx,
+            engine: "BB-wide",
+            rule: "real binary: 9..max mutually independent builds plus 0-4 independent services requested together, every script waiting (8 s bound) until all the others have started too, under 1/2/4/default runtime threads: they must all be in progress at the same time (no cap on the number of concurrent targets)",
+            total_cases: ctx.tier.pick(12, 120),
+            threads: 3.min(ctx.threads),
+            max_shrink_iters: 8,
+            stream: 318,
+        };
+        let (part, failures) = run_prop(&pr, || super::bb_c03w::antichain_case(max), super::bb_c03w::eval_antichain);
         report.add(part);
         for f in failures {
             report.fail(f);
